@@ -1,7 +1,9 @@
 """--parse-only emits both branches of a conditional class definition (functions are de-duplicated, classes are not).
 
 Exit status 1 = defect present, 0 = absent, 2 = inconclusive (preconditions of the input failed).
-Mechanism keys: stub-typecheck:parse-only:no-redef:Name "_" already defined on line N:conditional-class"""
+Mechanism keys:
+  stub-typecheck:parse-only:no-redef:Name '_' already defined on line N:conditional-class
+"""
 import os
 import sys
 
